@@ -10,6 +10,13 @@ package splitcarfetcher
 // a long body, a server that ignores Range (200 + whole file) or answers for another offset, a truncated body, a dropped connection.
 // Oracle only (no Coq case file): every ReadAt returns exactly the file's bytes or an error; after a failed
 // fetch a healthy re-read tells the truth; reads reaching past the end are refused.
+//
+// The behaviours also COMPOSE over the consecutive requests of one ReadAt (a client may retry or resume): a
+// server behaviour written "a>b>c" answers the first request of the read with a, the second with b, every
+// further one with c; the atoms are 206 (range honoured), 206/k and 200/k (body breaks off after k bytes), 200
+// (whole file, Range ignored), error statuses, 206-other-range and drop.  All short sequences are enumerated
+// over read offsets {0, 1, middle, end-len} and several lengths, each followed by healthy re-reads of the same
+// range and of an overlapping one through the cache (nothing wrong may have been cached).
 
 import (
 	"context"
@@ -32,18 +39,62 @@ type vc17hOp struct {
 	Mode string `json:"server"` // what the server does with the request(s) of this read
 }
 
-func (o vc17hOp) String() string { return fmt.Sprintf("ReadAt(off=%d,len=%d)@%s", o.Off, o.Len, o.Mode) }
+func (o vc17hOp) String() string {
+	return fmt.Sprintf("ReadAt(off=%d,len=%d)@%s", o.Off, o.Len, o.Mode)
+}
 
 type vc17hServer struct {
 	mu       sync.Mutex
 	data     []byte
 	mode     string
 	requests int
-	release  func() // closes every connection the server holds (httptest.Server.CloseClientConnections)
+	release  func()   // closes every connection the server holds (httptest.Server.CloseClientConnections)
+	script   []string // behaviours for the consecutive requests since the last set(); the last one repeats
+	served   []string // the behaviours actually applied to the requests since the last set()
 }
 
-func (s *vc17hServer) set(mode string) { s.mu.Lock(); s.mode = mode; s.mu.Unlock() }
-func (s *vc17hServer) count() int      { s.mu.Lock(); defer s.mu.Unlock(); return s.requests }
+// set installs the behaviour for the requests that follow: one atom, or a sequence "a>b>c".
+func (s *vc17hServer) set(mode string) {
+	s.mu.Lock()
+	s.mode = mode
+	s.script = strings.Split(mode, ">")
+	s.served = nil
+	s.mu.Unlock()
+}
+func (s *vc17hServer) count() int { s.mu.Lock(); defer s.mu.Unlock(); return s.requests }
+
+// misbehaved reports whether any request since the last set() got an answer other than an honoured range.
+func (s *vc17hServer) misbehaved() bool {
+	s.mu.Lock()
+	defer s.mu.Unlock()
+	for _, b := range s.served {
+		if b != "ok" && b != "206" {
+			return true
+		}
+	}
+	return false
+}
+
+// vc17hCut splits "206/3" into ("206", 3); cut < 0 when the atom has no break-off point.
+func vc17hCut(atom string) (string, int) {
+	if i := strings.IndexByte(atom, '/'); i >= 0 {
+		if k, err := strconv.Atoi(atom[i+1:]); err == nil && k >= 0 {
+			return atom[:i], k
+		}
+	}
+	return atom, -1
+}
+
+// vc17hBreakOff sends the first k bytes of an announced longer body and returns; the server then closes the
+// connection, the client sees the body end early.
+func vc17hBreakOff(w http.ResponseWriter, body []byte, k int) {
+	if k > 0 {
+		w.Write(body[:k])
+	}
+	if f, ok := w.(http.Flusher); ok {
+		f.Flush()
+	}
+}
 
 // parse "bytes=a-b" (inclusive), clamp to the file
 func vc17hRange(h string, size int64) (int64, int64, bool) {
@@ -70,9 +121,24 @@ func (s *vc17hServer) ServeHTTP(w http.ResponseWriter, r *http.Request) {
 	mode := s.mode
 	if r.Method != http.MethodHead {
 		s.requests++
+		if len(s.script) > 0 {
+			i := len(s.served)
+			if i >= len(s.script) {
+				i = len(s.script) - 1
+			}
+			mode = s.script[i]
+			s.served = append(s.served, mode)
+		}
 	}
 	data := s.data
 	s.mu.Unlock()
+	mode, cut := vc17hCut(mode)
+	switch mode {
+	case "206":
+		mode = "ok"
+	case "200":
+		mode = "200-range-ignored"
+	}
 	size := int64(len(data))
 	if r.Method == http.MethodHead {
 		w.Header().Set("Content-Length", strconv.FormatInt(size, 10))
@@ -89,6 +155,10 @@ func (s *vc17hServer) ServeHTTP(w http.ResponseWriter, r *http.Request) {
 	case "200-range-ignored":
 		w.Header().Set("Content-Length", strconv.FormatInt(size, 10))
 		w.WriteHeader(200)
+		if cut >= 0 && int64(cut) < size {
+			vc17hBreakOff(w, data, cut)
+			return
+		}
 		w.Write(data)
 		return
 	case "drop":
@@ -126,6 +196,10 @@ func (s *vc17hServer) ServeHTTP(w http.ResponseWriter, r *http.Request) {
 		}
 		return
 	}
+	if cut >= 0 && cut < len(body) {
+		vc17hBreakOff(w, body, cut)
+		return
+	}
 	w.Write(body)
 }
 
@@ -137,6 +211,12 @@ type vc17hReplay struct {
 }
 
 func vc17hSig(mode string) string {
+	if strings.Contains(mode, ">") {
+		return "http-wrong-bytes-after-retried-or-resumed-transfer"
+	}
+	if strings.HasPrefix(mode, "200") {
+		return "http-range-ignored-served-as-data"
+	}
 	switch mode {
 	case "500", "503", "404", "403":
 		return "http-error-status-served-as-data"
@@ -222,6 +302,7 @@ func vc17hRunOnce(rep *vh.Report, srv *vc17hServer, url string, ops []vc17hOp, m
 			n, err = rd.ReadAt(p, o.Off)
 		}()
 		fetched := srv.count() > req0
+		misbehaved := srv.misbehaved()
 		srv.set("ok")
 		inside := o.Off >= 0 && o.Off+int64(o.Len) <= size
 		switch {
@@ -245,9 +326,9 @@ func vc17hRunOnce(rep *vh.Report, srv *vc17hServer, url string, ops []vc17hOp, m
 				}
 				fail(sig, i, "%s returned n=%d %q with a nil error; the file holds %q there (a request reached the server: %v)", o, n, p[:n], data[o.Off:o.Off+int64(o.Len)], fetched)
 			}
-		default: // an error on a read inside the file needs a cause: the server misbehaved on this very read
-			if o.Mode == "ok" || !fetched {
-				if !fetched && o.Mode != "drop" {
+		default: // an error on a read inside the file needs a cause: the server misbehaved on a request of this very read
+			if !misbehaved || !fetched {
+				if !fetched && !strings.Contains(o.Mode, "drop") {
 					unreachable = true // the request never arrived although the server was listening
 				}
 				fail("spurious-error-http", i, "%s failed (%v) although the server answered correctly (request reached the server: %v)", o, err, fetched)
@@ -256,7 +337,11 @@ func vc17hRunOnce(rep *vh.Report, srv *vc17hServer, url string, ops []vc17hOp, m
 	}
 	for i, o := range ops {
 		read(i, o)
-		rep.Count("read@" + o.Mode)
+		if n := strings.Count(o.Mode, ">"); n > 0 {
+			rep.Count(fmt.Sprintf("read@sequence-of-%d-behaviours", n+1))
+		} else {
+			rep.Count("read@" + o.Mode)
+		}
 	}
 	// whatever happened, a healthy re-read tells the truth (a failed fetch must not have been cached)
 	read(len(ops), vc17hOp{Off: 0, Len: int(size), Mode: "ok"})
@@ -277,7 +362,7 @@ func vc17hFds() int {
 func TestVerif_C17HTTP(t *testing.T) {
 	rng := vh.NewRng(vh.Seed())
 	rep := vh.NewReport("C17", "httpreader",
-		"HTTPSingleFileRemoteReaderAt.ReadAt against a loopback server: every history of length<=2 (3 in thorough) of reads x per-request server behaviour (healthy 206, 500/503/404/403 with a long body, Range ignored with 200, 206 for another offset, truncated body) over a 12-byte file incl. reads past the end, + random longer histories, + dropped connections; each followed by a healthy truth sweep; oracle only. Non-trivial: a history with at least one misbehaving request")
+		"HTTPSingleFileRemoteReaderAt.ReadAt against a loopback server: every history of length<=2 (3 in thorough) of reads x per-request server behaviour (healthy 206, 500/503/404/403 with a long body, Range ignored with 200, 206 for another offset, truncated body) over a 12-byte file incl. reads past the end, + random longer histories, + dropped connections, + every sequence of <=3 behaviours over the consecutive requests of ONE read (206, body broken off after k bytes of a 206 or of a 200, 200 whole file, 500, 206 for another offset; dropped connection in front) x read offsets {0,1,middle,end-len} x lengths {2,5,whole}, followed by healthy re-reads of the same and of an overlapping range; each followed by a healthy truth sweep; oracle only. Non-trivial: a history with at least one misbehaving request")
 	rep.CaseFiles = []string{} // oracle only: no Coq case file from this part
 	data := []byte("0123456789ab")
 	srv := &vc17hServer{data: data, mode: "ok"}
@@ -363,6 +448,7 @@ func TestVerif_C17HTTP(t *testing.T) {
 		rep.Case(fmt.Sprint("long", h, vh.Seed()), true)
 		rep.Count("random-long")
 	}
+	vc17hComposed(rep, srv, url, rng)
 	// dropped connections (each costs the client's retry back-off, ~0.7 s): a few directed histories
 	for _, ops := range [][]vc17hOp{
 		{{Off: 2, Len: 4, Mode: "drop"}},
@@ -376,5 +462,100 @@ func TestVerif_C17HTTP(t *testing.T) {
 	rep.Sample(map[string]interface{}{"file": string(data), "history": "ReadAt(off=2,len=4)@503 ; ReadAt(off=2,len=4)@ok", "expected": "error, then \"2345\""})
 	if err := rep.Write(); err != nil {
 		t.Fatal(err)
+	}
+}
+
+// vc17hComposed: the server behaviours composed over the consecutive requests of ONE read. A reader may spend
+// several requests on a read (retry after a transport error, resume a broken transfer, ...); whatever it does,
+// a read that reports success returned the file's bytes of its range, and nothing else was cached: the read is
+// followed by healthy reads of the same range, of an overlapping range that starts before or ends after it, and
+// of a range inside it, then by the truth sweep of vc17hRunOnce. An error is always acceptable when a request
+// of the read was answered with something other than the honoured range.
+func vc17hComposed(rep *vh.Report, srv *vc17hServer, url string, rng *vh.Rng) {
+	size := len(srv.data)
+	type shape struct {
+		off, ln int
+		full    bool // every sequence of length 3 also in the quick tier
+	}
+	var shapes []shape
+	for _, ln := range []int{5, 2} {
+		for i, off := range []int{0, 1, (size - ln) / 2, size - ln} {
+			shapes = append(shapes, shape{off, ln, ln == 5 && i == 0})
+		}
+	}
+	shapes = append(shapes, shape{0, size, false})
+	run := func(sh shape, seq []string) {
+		mode := strings.Join(seq, ">")
+		ops := []vc17hOp{{Off: int64(sh.off), Len: sh.ln, Mode: mode}, {Off: int64(sh.off), Len: sh.ln, Mode: "ok"}}
+		// an overlapping range and a nested one, through the cache
+		if sh.off > 0 {
+			ops = append(ops, vc17hOp{Off: int64(sh.off - 1), Len: sh.ln, Mode: "ok"})
+		} else if sh.off+sh.ln < size {
+			ops = append(ops, vc17hOp{Off: int64(sh.off + 1), Len: sh.ln, Mode: "ok"})
+		}
+		if sh.ln > 1 {
+			ops = append(ops, vc17hOp{Off: int64(sh.off + 1), Len: sh.ln - 1, Mode: "ok"})
+		}
+		vc17hRun(rep, srv, url, ops)
+		rep.Case(fmt.Sprintf("seq/%d/%d/%s", sh.off, sh.ln, mode), len(seq) > 1 || mode != "206")
+		rep.Count(fmt.Sprintf("composed len=%d", len(seq)))
+	}
+	for _, sh := range shapes {
+		atoms := []string{"206", "200", "500", "206-other-range"}
+		seen := map[int]bool{}
+		for _, k := range []int{1, sh.ln / 2, sh.ln - 1} { // break-off points inside the bytes the read needs
+			if k >= 1 && k < sh.ln && !seen[k] {
+				seen[k] = true
+				atoms = append(atoms, fmt.Sprintf("206/%d", k), fmt.Sprintf("200/%d", k))
+			}
+		}
+		// a healthy complete answer ends a read: it only occurs in the last place of a sequence
+		var enum func(prefix []string, n int)
+		enum = func(prefix []string, n int) {
+			if len(prefix) == n {
+				if n < 3 || sh.full || vh.Thorough() || rng.Intn(5) == 0 {
+					run(sh, prefix)
+				}
+				return
+			}
+			for _, a := range atoms {
+				if a == "206" && len(prefix) < n-1 {
+					continue
+				}
+				enum(append(append([]string(nil), prefix...), a), n)
+			}
+		}
+		for n := 1; n <= 3; n++ {
+			enum(nil, n)
+		}
+		// a dropped connection costs the client's back-off (0.1 s, then 0.2 s, then 0.4 s): in the quick tier only in
+		// front of every atom and inside a few directed sequences, at offset 0 and in the middle
+		if sh.ln == 5 && (sh.off == 0 || sh.off == (size-sh.ln)/2) {
+			for _, a := range atoms {
+				run(sh, []string{"drop", a})
+			}
+			for _, seq := range [][]string{{"200/2", "drop", "200"}, {"206/2", "drop", "206"}} {
+				run(sh, seq)
+			}
+			if sh.off == 0 {
+				run(sh, []string{"drop", "drop", "200/2"})
+			}
+			if vh.Thorough() {
+				withDrop := append(append([]string(nil), atoms...), "drop")
+				for _, a := range withDrop {
+					for _, b := range withDrop {
+						for _, c := range withDrop {
+							if a == "206" || b == "206" || (a != "drop" && b != "drop" && c != "drop") {
+								continue
+							}
+							if a == "drop" && b == "drop" && c == "drop" {
+								continue // 0.7 s each; the directed histories of the caller cover it
+							}
+							run(sh, []string{a, b, c})
+						}
+					}
+				}
+			}
+		}
 	}
 }
